@@ -788,10 +788,21 @@ package stats
 //@   assigns nothing
 
 // Restatement of newTTestResult for callers in model real (finite t, dof).
-//@ assume func newTTestResult@real
+//@ func TDist.CDF@real
+//@   deterministic
 //@   model real
-//@   trusted restatement for finite arguments of the contract proved in model xreal
-//@   ensures result != nil && fresh(result) && result.N1 == n1 && result.N2 == n2 && result.T == t && result.DoF == dof && result.AltHypothesis == alt
+//@   requires t.V > 0
+//@   ensures [zero] x == 0 ==> result == 0.5
+//@   ensures [pos]  x > 0 ==> result == 1 - 0.5 * mathx.BetaInc(t.V / (t.V + x*x), t.V / 2, 0.5)
+//@   ensures [neg]  x < 0 ==> result == 1 - (1 - 0.5 * mathx.BetaInc(t.V / (t.V + (-x)*(-x)), t.V / 2, 0.5))
+//@   assigns nothing
+//@ func newTTestResult@real
+//@   model real
+//@   requires dof > 0
+//@   ensures [fields]  result != nil && fresh(result) && result.N1 == n1 && result.N2 == n2 && result.T == t && result.DoF == dof && result.AltHypothesis == alt
+//@   ensures [less]    alt == LocationLess ==> result.P == TDist{dof}.CDF(t)
+//@   ensures [greater] alt == LocationGreater ==> result.P == 1 - TDist{dof}.CDF(t)
+//@   ensures [differs] alt == LocationDiffers ==> result.P == 2 * (1 - TDist{dof}.CDF(abs(t)))
 //@   assigns nothing
 
 //@ func PairedTTest
